@@ -1,10 +1,13 @@
 //! One driver per property.
 use crate::fw::PropInfo;
 
+pub mod c01;
 pub mod c14;
 pub mod common;
+pub mod graph;
+pub mod sched_props;
 pub mod c15;
 
 pub fn registry() -> Vec<PropInfo> {
-    vec![c14::info(), c15::info()]
+    vec![c01::info(), sched_props::info_c02(), sched_props::info_c03(), sched_props::info_c05(), c14::info(), c15::info()]
 }
